@@ -14,7 +14,7 @@ from .core import AnalysisError
 CONFUSABLE = [{"dom", "cod"}, {"left", "right"}, {"l", "r"}, {"cups", "caps"}, {"Cup", "Cap"}, {"boxes", "offsets"},
               {"cap", "cup"}, {"start", "stop"}, {"real", "imag"}, {"classical", "quantum"}, {"bits", "qubits"},
               {"then", "tensor"}, {"subs", "lambdify"}, {"sin", "cos"}, {"Z", "X"}, {"inputs", "outputs"},
-              {"n_legs_in", "n_legs_out"}, {"udom", "ucod"}, {"_left", "_right"}, {"dagger", "conjugate"}]
+              {"LShift", "RShift"}, {"Add", "Sub"}, {"Lt", "Gt"}, {"LtE", "GtE"}, {"Eq", "NotEq"}, {"Mult", "Div"}, {"n_legs_in", "n_legs_out"}, {"udom", "ucod"}, {"_left", "_right"}, {"dagger", "conjugate"}]
 _PARTNER = {}
 for _s in CONFUSABLE:
     for _a in _s:
